@@ -282,7 +282,7 @@ pub fn run(ch: &mut Chooser, cfg: &RunCfg) -> RunResult {
         let chunks: Vec<usize> = (0..nchunks).map(|_| 1 + ch.pick_usize(40)).collect();
         let ending = ch.weighted(&[5, 2, 1, 1]) as u32;
         let shared = Arc::new((Mutex::new(Shared { written: Vec::new(), closed: false }), Condvar::new()));
-        let reader = SimReader { data, pos: 0, chunks, next_chunk: 0, shared: shared.clone(), wait_for_answer: allowed && well_formed_v2 && honest_frame, ending, ended: 0 };
+        let reader = SimReader { data, pos: 0, chunks, next_chunk: 0, shared: shared.clone(), wait_for_answer: honest_frame && (well_formed_v2 || variant == 6), ending, ended: 0 };
         let writer = SimWriter { shared: shared.clone() };
         res.hit(&format!("fault.request.{vname}"));
         if !honest_frame {
@@ -309,7 +309,13 @@ pub fn run(ch: &mut Chooser, cfg: &RunCfg) -> RunResult {
             Ok(FetchResult::Responder { rid: got, result }) => {
                 let ok = result.is_ok();
                 let e = result.as_ref().err().map(|e| normalise(&e.to_string())).unwrap_or_default();
-                res.trace.log(&format!("respond-{}-{}", if ok { "ok" } else { "err" }, if written.is_empty() { "silent" } else { "served" }), format!("{desc} -> {} rid={} bytes={}", if ok { "ok".to_string() } else { format!("error ({e})") }, got.map(|_| "parsed").unwrap_or("none"), if written.is_empty() { "0" } else { ">0" }));
+                // once the child process runs, its exit status and late stream errors depend on real
+                // timing: for served requests only "served" is recorded
+                if written.is_empty() {
+                    res.trace.log(&format!("respond-{}-silent", if ok { "ok" } else { "err" }), format!("{desc} -> {} rid={} bytes=0", if ok { "ok".to_string() } else { format!("error ({e})") }, got.map(|_| "parsed").unwrap_or("none")));
+                } else {
+                    res.trace.log("respond-served", format!("{desc} -> served rid={} bytes>0", got.map(|_| "parsed").unwrap_or("none")));
+                }
                 if !allowed {
                     res.hit("probe.c12.refusal_expected");
                     if stored.map(|r| !r.public).unwrap_or(false) && policy_allows {
